@@ -36,7 +36,7 @@ ASSUMPTIONS = [
     "the two pad bytes of the undocumented AT5 outer header are not 'covered bytes' and are not corrupted",
     "the exhaustive 1..2-byte comparison of calculate() is a plain function comparison, not simulation; the 3-byte enumeration and the induction on length of the property text are not reproduced",
 ]
-PROBES = ["c06.single_bit", "c06.double_bit", "c06.burst", "c06.check_bytes_only", "c06.after_intact_original", "c06.special_register_frame", "c06.intact_special_register", "c06.prefix_valued_address", "c06.prefix_like_payload", "c06.header_only_frame", "c06.special_final_check_value", "c06.long_frame", "c06.in_prefix", "c06.in_length", "c06.in_crc", "c06.in_payload", "c06.waited_for_bytes", "c06.function_audit"]
+PROBES = ["c06.single_bit", "c06.double_bit", "c06.burst", "c06.check_bytes_only", "c06.after_intact_original", "c06.special_register_frame", "c06.intact_special_register", "c06.prefix_valued_address", "c06.prefix_like_payload", "c06.second_socket_interleaved", "c06.header_only_frame", "c06.special_final_check_value", "c06.long_frame", "c06.in_prefix", "c06.in_length", "c06.in_crc", "c06.in_payload", "c06.waited_for_bytes", "c06.function_audit"]
 EXHAUSTIVE = True
 TRUSTED_BASE = ["ref/crc.py (bitwise CRC-16/MODBUS)", "ref/wire4.py, ref/wire5.py (framing)"]
 
@@ -79,6 +79,24 @@ def _scenario(gen: int, kind: str, frame: bytes, bits: list[int], pattern: str, 
         "end": 8.0,
         "info": {"kind": kind, "bits": bits, "pattern": pattern, "a_len": len(a), "frame_len": len(frame), "history": history},
     }
+
+
+def _scenario_interleaved(gen: int, kind: str, frame: bytes, bits: list[int]) -> dict:
+    """The damaged frame reaches the socket in two segments (header, then the rest); between the two a second socket of the
+    same generation in the same process (they share the message registry) receives the intact twin of that frame."""
+    damaged = bytearray(frame)
+    for b in bits:
+        damaged[b // 8] ^= 0x80 >> (b % 8)
+    hl = 8 if gen == 4 else 20
+    rng = random.Random(zlib.crc32(repr((gen, kind, tuple(bits), "il")).encode()))
+    probe = framegen.frame(rng, gen, "version", pid=0x13)[0]
+    tl = [{"at": 0.0, "op": "user.open"}, {"at": 0.0, "op": "user.second_socket"},
+          {"at": 1.0, "op": "console.raw", "hex": bytes(damaged).hex(), "input": True, "cuts": [hl], "gaps": [0.0, 0.25]},
+          {"at": 1.125, "op": "console2.raw", "hex": bytes(frame).hex()},
+          {"at": 2.0, "op": "net.fin"},
+          {"at": 6.0, "op": "console.raw", "hex": probe.hex(), "probe": True}]
+    return {"gen": gen, "mode": "socket", "knobs": {"latency": 0.0, "seg": {"mode": "whole"}}, "timeline": tl, "end": 8.0,
+            "info": {"kind": kind, "bits": bits, "pattern": "single", "a_len": 0, "frame_len": len(frame), "history": "none", "interleaved": True}}
 
 
 def _lsb(p: int, n_bytes: int = 0) -> int:
@@ -230,6 +248,12 @@ def enumerated(tier: str):
                 yield _scenario(gen, "long:%d" % size, fr, bits, "checkbytes", with_neighbours=False)
             yield _scenario(gen, "long:%d" % size, fr, [], "intact", with_neighbours=True)
         samples = _samples(gen)
+        # a second socket of the same generation decodes the intact twin while the damaged frame is half received
+        hl_ = 8 if gen == 4 else 20
+        for (kind, fr) in samples[: (2 if tier == "quick" else len(samples))]:
+            for b in [p for p in _positions(gen, len(fr)) if p // 8 < hl_ - 2]:
+                yield _scenario_interleaved(gen, kind, fr, [b])
+            yield _scenario_interleaved(gen, kind, fr, [])
         for i, (kind, fr) in enumerate(samples):
             # the check bytes alone: order, single byte, constants (every sample), every 16-bit pattern (thorough, one sample)
             for name, bits in _check_byte_patterns(fr, random.Random(31 * gen + i), exhaustive=(tier == "thorough" and i == 0)):
@@ -368,6 +392,8 @@ def execute(sc: dict) -> dict:
         probes["c06.special_final_check_value"] = 1
     if str(info.get("kind", "")).startswith("unknown:empty"):
         probes["c06.header_only_frame"] = 1
+    if info.get("interleaved"):
+        probes["c06.second_socket_interleaved"] = 1
     if str(info.get("kind", "")).startswith("long:") and info.get("frame_len", 0) > 1040:
         probes["c06.long_frame"] = 1
     hl = 8 if gen == 4 else 20
